@@ -51,7 +51,7 @@ def gen_case(ctx, k):
     # integer initial state (so that redistribution is the identity up to totals); some zeros
     state = [float(rng.choice([0, 0, 1, 2, 3, 5, 8, 13])) for _ in range(ns * n)]
     case = {"net": net, "space": space, "kind": kind, "option": option, "seed": rng.randint(0, 2 ** 31 - 1),
-            "dt": 1 / 64 if option == "tauleap" else 1 / 64, "tmax": 1e9, "state": state,
+            "dt": 1 / 2048, "tmax": 1e9, "state": state,
             "max_iter": ctx.n(120, 3000) if option == "gillespie" else ctx.n(12, 120),
             "edge": info["edge"] if kind == "grid" else list(info["edge"])}
     return case
@@ -105,6 +105,25 @@ def check_gillespie(ctx, case, res, rates, stats):
             return None
         if y != x:
             stats["changed"] += 1
+        # event choice: r = u1 * a0 falls into the cumulative interval of the chosen channel (channels in the engine's
+        # documented scan order: cell by cell, reactions first, then species x slots; zero-propensity channels have empty intervals)
+        u1 = frac(draws[2 * k][3])
+        r = u1 * a0
+        cum = Fraction(0)
+        hit, margin = None, None
+        for c in ch:
+            lo, cum = cum, cum + c[0]
+            if hit is None and r < cum:
+                hit = c
+                margin = min(r - lo, cum - r)
+        if hit is not None and margin > Fraction(1, 10 ** 9) * a0:
+            if apply_effect(x, hit[1], n) != y:
+                ctx.violation("gillespie-selection", "the applied event is not the channel whose cumulative propensity interval contains u*a0",
+                              cse, impl={"diff": {str(p): float(y[p] - x[p]) for p in range(len(x)) if y[p] != x[p]}},
+                              expected={"u": float(u1), "a0": float(a0), "channel": list(map(str, hit[2]))})
+                return None
+        else:
+            ctx.count("selection_ambiguous_or_edge")
         kinds = {c[2][0] for c in legal}
         for kd in kinds:
             ctx.count("event_" + kd)
@@ -162,7 +181,7 @@ def check_tauleap(ctx, case, res, rates, stats):
 
 
 def run(ctx):
-    nscripts = ctx.n(60, 600)
+    nscripts = ctx.n(48, 600)
     cases = [gen_case(ctx, k) for k in range(nscripts)]
     total_model_steps = ctx.n(4000, 90000)
     per_script = max(10, total_model_steps // nscripts)
